@@ -513,7 +513,7 @@ def main(argv):
             "trusted_base": [
                 "Coq 8.16.1 kernel (coqc); vm_compute for finite checks, KATs and model evaluation; no native_compute",
                 "axioms reported by Print Assumptions: " + (", ".join(sorted({a for v in axioms.values() for a in v})) or "none (every property theorem is closed under the global context)"),
-                "translators tools/src2v.py, tools/src2v2.py, tools/src2v2b.py with the Rust-subset parser tools/rustmini.py (Tie A: coq/gen/Src.v, Src2.v regenerated from /repo on every run) and the lemmas of theories/SrcTie*.v, SrcTie2*.v; extraction is not used (no Extract directive anywhere)",
+                "translators tools/src2v.py, tools/src2v2.py, tools/src2v2b.py and the level-1 translators tools/src2v3_{fresh,repair,reader,block,header,linear,cli,cmds,capi,keys,enc,comp,crypto}.py with the Rust-subset parser tools/rustmini.py (Tie A: coq/gen/Src.v, Src2.v, Src3*.v regenerated from /repo on every run; each level-1 translator lists in its header the trusted table mapping library primitives - AES/GHASH, brotli, bincode/serde, byteorder, String::from_utf8, LruCache, file-system calls, raw pointers - to model operations) and the lemmas of theories/SrcTie*.v, SrcTie2*.v, SrcTie3*.v, Carry*.v; extraction is not used (no Extract directive anywhere)",
                 "correspondence harness /verif/harness and job scripts tools/cli/*.py, tools/keys/*.py (Tie B): generators, canonicalisation, oracles, the independent crates they use",
             ] + trusted,
             "theorems": thms,
